@@ -1,7 +1,7 @@
 (** Executable wrapper of the loading pipeline model: text -> tokens -> generic model tree,
     printed in the format of harness/implrun/src/load.rs + dump_gen.rs. *)
 From Coq Require Import Ascii String List Bool NArith ZArith.
-From A2L Require Import Base.Sx Base.StableSort Text.Escape Text.IntText Lex.Tokenizer Gram.Spec A2ml.Types Gram.PState Gram.Parser
+From A2L Require Import Base.Sx Base.StableSort Text.Escape Text.IntText Lex.Tokenizer Lex.Include Gram.Spec A2ml.Types Gram.PState Gram.Parser
      Gram.Writer Gen.SpecShipped Gen.WriterShipped.
 Import ListNotations.
 Local Open Scope string_scope.
@@ -225,5 +225,78 @@ Definition run_load (x : sx) : sx :=
       | _ => run_load_with text strict ftab (Some []) []
       end
   | SL [SS text; SZ strict; _; _; SL ftab; SL a2mltab; SL builtin] => run_load_with text strict ftab (Some a2mltab) builtin
+  | _ => bad_case
+  end.
+
+(* ---------- LOADINC: a document that lives in several files (C16) ----------
+   case ( ( ( s<path> s<text> )* ) s<main path> i<strict> floattable ( ( s<base path> s<directive text> ( s<path> )? )* ) )
+   The last table is the file-system oracle of Lex/Include.v: which file a directive written in a given file names
+   (loader::make_include_filename + load: relative to the including file, both separators), or nothing. *)
+Fixpoint assoc_text (files : list (bytes * bytes)) (p : bytes) : option bytes :=
+  match files with
+  | [] => None
+  | (k, v) :: r => if bytes_eqb k p then Some v else assoc_text r p
+  end.
+Fixpoint resolve_in (tab : list (bytes * bytes * option bytes)) (base inc : bytes) : option (option bytes) :=
+  match tab with
+  | [] => None
+  | (b, i, r) :: rest => if bytes_eqb b base && bytes_eqb i inc then Some r else resolve_in rest base inc
+  end.
+Definition fs_of (files : list (bytes * bytes)) (tab : list (bytes * bytes * option bytes)) (base inc : bytes)
+  : option (bytes * bytes) :=
+  match resolve_in tab base inc with
+  | Some (Some p) => match assoc_text files p with Some t => Some (p, t) | None => None end
+  | _ => None
+  end.
+
+Definition dec_file (x : sx) : option (bytes * bytes) :=
+  match x with SL [SS p; SS t] => Some (list_ascii_of_string p, list_ascii_of_string t) | _ => None end.
+Definition dec_resolve (x : sx) : option (bytes * bytes * option bytes) :=
+  let b := list_ascii_of_string in
+  match x with
+  | SL [SS base; SS inc; SL []] => Some (b base, b inc, None)
+  | SL [SS base; SS inc; SL [SS p]] => Some (b base, b inc, Some (b p))
+  | _ => None
+  end.
+
+Definition ierr_sx (e : tokerr) (display incname : bytes) : sx :=
+  match tokerr_sx e with
+  | SL [k; v; l] => SL [k; v; l; sb display; sb incname]
+  | other => other
+  end.
+
+Definition run_loadinc (x : sx) : sx :=
+  match x with
+  | SL [SL files; SS mainp; SZ strict; SL ftab; SL resolve] =>
+      match opt_map_all dec_file files, opt_map_all dec_fentry ftab, opt_map_all dec_resolve resolve with
+      | Some fl, Some tab, Some rs =>
+          let mp := list_ascii_of_string mainp in
+          match assoc_text fl mp with
+          | None => bad_case
+          | Some text =>
+              match tokenize_inc (fs_of fl rs) (S (S (length fl))) (mkFn mp mp None) 0 text with
+              | IErr e d i => SL [SS "ERR"; ierr_sx e d i]
+              | IPanic s => SL [SS "PANIC"; SS s]
+              | IFuel => SL [SS "FUEL"]
+              | IOk toks fns =>
+                  if has_a2ml_block toks then SL [SS "UNSUPPORTED"; SS "a2ml"] else
+                  match toks with
+                  | [] => SL [SS "ERR"; SL [SS "Other"; SS "EmptyFileError"]]
+                  | _ =>
+                      let display := map fn_display fns in
+                      let tops := map (fun f => match fn_top f with Some d => d | None => fn_display f end) fns in
+                      match parse_file spec_shipped (init_state toks (negb (strict =? 0)%Z) (length fns) tab) with
+                      | (ROk v, s) =>
+                          let text1 := write_node spec_shipped posr_shipped tab tops (S (S (length toks))) v 0 in
+                          SL [SS "OK"; enc_value tops v; SL (map (enc_diag display) (frev (ps_log s))); sb text1]
+                      | (RErr d, _) => SL [SS "ERR"; enc_diag display d]
+                      | (RPanic site, _) => SL [SS "PANIC"; SS site]
+                      | (RFuel, _) => SL [SS "FUEL"]
+                      end
+                  end
+              end
+          end
+      | _, _, _ => bad_case
+      end
   | _ => bad_case
   end.
